@@ -699,7 +699,114 @@ def check_real(case):
     return True, ["real", name, "again" if again else "once"]
 
 
+# ---- several calls in flight on one RetryingClient --------------------------------------------------------------------
+
+class TurnInner:
+    """two commands whose attempts proceed in a scripted order (threads) or of which one runs the other from inside (re-entrant)"""
+
+    def __init__(self, fails, turns=None, nest_at=None):
+        import threading
+        self.fails = dict(fails)            # command -> number of failing attempts before it succeeds
+        self.calls = {"a": 0, "b": 0}
+        self.turns = list(turns or ())
+        self.cv = threading.Condition()
+        self.rc = None
+        self.nest_at = nest_at              # attempt number of `a` (1-based) during which it calls rc.b()
+        self.nested = []
+
+    def _turn(self, who):
+        if not self.turns:
+            return
+        with self.cv:
+            ok = self.cv.wait_for(lambda: not self.turns or self.turns[0] == who, timeout=20)
+            if not ok:
+                raise RuntimeError("harness: turn order cannot be followed")
+            if self.turns:
+                self.turns.pop(0)
+            self.cv.notify_all()
+
+    def _do(self, who):
+        self._turn(who)
+        self.calls[who] += 1
+        n = self.calls[who]
+        if who == "a" and self.nest_at == n:
+            try:
+                self.nested.append(("ok", self.rc.b()))
+            except Exception as e:  # noqa: BLE001
+                self.nested.append(("exc", e))
+        if n <= self.fails[who]:
+            raise Base("%s-%d" % (who, n))
+        return "%s-ok" % who
+
+    def a(self):
+        return self._do("a")
+
+    def b(self):
+        return self._do("b")
+
+
+def inflight_cases(tier, seed):
+    for attempts in (1, 2, 3):
+        for fa in range(0, attempts + 1):
+            for fb in range(0, attempts + 1):
+                # re-entrant: command a, during its attempt number `nest_at`, runs command b through the same RetryingClient
+                for nest_at in range(1, min(fa + 1, attempts) + 1):
+                    yield {"mode": "reentrant", "attempts": attempts, "fails": [fa, fb], "nest_at": nest_at}
+                # two threads: every order in which the attempts of the two commands can follow each other
+                na, nb = min(fa + 1, attempts), min(fb + 1, attempts)
+                for order in set(itertools.permutations("a" * na + "b" * nb)):
+                    yield {"mode": "threads", "attempts": attempts, "fails": [fa, fb], "order": "".join(order)}
+
+
+def check_inflight(case):
+    """each call on a RetryingClient has its own budget of attempts, whatever other calls are in flight on the same object -
+    from another thread, or started by the wrapped client from inside the call"""
+    import threading
+    attempts, (fa, fb) = case["attempts"], case["fails"]
+    want = {w: (("ok", "%s-ok" % w) if f < attempts else ("exc", "%s-%d" % (w, attempts)), min(f + 1, attempts)) for w, f in (("a", fa), ("b", fb))}
+    inner = TurnInner({"a": fa, "b": fb}, turns=case.get("order"), nest_at=case.get("nest_at"))
+    rc = R.RetryingClient(inner, attempts=attempts)
+    inner.rc = rc
+    got = {}
+
+    def run(who):
+        try:
+            got[who] = ("ok", getattr(rc, who)())
+        except Base as e:
+            got[who] = ("exc", str(e))
+        except Exception as e:  # noqa: BLE001
+            got[who] = ("exc", repr(e))
+    desc = "RetryingClient(attempts=%d); command a fails %d time(s), command b %d time(s); %s" % (
+        attempts, fa, fb, "a runs b through the same object during its attempt %d" % case["nest_at"] if case["mode"] == "reentrant" else "two threads, attempts in the order %s" % case["order"])
+    if case["mode"] == "reentrant":
+        run("a")
+        if inner.nested:
+            got["b"] = inner.nested[0] if inner.nested[0][0] == "ok" else ("exc", str(inner.nested[0][1]))
+        nb_want = want["b"][1]
+    else:
+        ts = [threading.Thread(target=run, args=(w,)) for w in "ab"]
+        for t in ts:
+            t.start()
+        for t in ts:
+            t.join(30)
+        if any(t.is_alive() for t in ts):
+            with inner.cv:
+                inner.turns = []
+                inner.cv.notify_all()
+            for t in ts:
+                t.join(5)
+            raise Violation(["inflight", "order-not-followed"], "the attempts did not happen in the scripted order (a call made fewer or more attempts than its budget allows): %s" % desc)
+    for w in "ab":
+        if w not in got:
+            continue
+        if got[w] != want[w][0] or inner.calls[w] != want[w][1]:
+            raise Violation(["inflight", case["mode"], "budget-shared"], "command %s ended as %r after %d attempt(s); on its own it ends as %r after %d: %s"
+                            % (w, got[w], inner.calls[w], want[w][0], want[w][1], desc))
+    return (fa > 0 or fb > 0) and attempts > 1, ["inflight", case["mode"]]
+
+
 PARTS = [
+    Part("calls-in-flight-together", "enum", check_inflight, cases=inflight_cases, exhaustive=True),
     Part("around-the-library's-clients", "enum", check_real, cases=real_cases, exhaustive=True),
     Part("library-exception-classes", "enum", check_lib, cases=lib_cases, exhaustive=True, distinct_by_construction=True),
     Part("results-that-are-exceptions", "enum", check_returned_exception, cases=returned_exception_cases, exhaustive=True),
